@@ -85,6 +85,16 @@ func vRun(op string, in M) M {
 
 func TestVerifDriver(t *testing.T) {
 	vMain(vRun, func(do func(string, M)) {
+		{ // long paths: any length prints and parses back
+			lr := vRand(101)
+			for _, ln := range []int{255, 256, 257, 300 + lr.Intn(700)} {
+				p := make([][]int, ln)
+				for i := range p {
+					p[i] = []int{lr.Intn(2), lr.Intn(1 << 31)}
+				}
+				do("path.String", M{"path": p})
+			}
+		}
 		r := vRand(10)
 		n := vEnvInt("VERIF_N", 500)
 		bound := []uint32{0, 1, 7, 8, 9, 10, 99, 100, 1<<31 - 1, 1 << 31, 1<<31 + 1, 1<<32 - 1, 1<<31 + 8, 1<<31 + 10}
